@@ -30,7 +30,7 @@ impl Prop for C12 {
     fn id(&self) -> &'static str { "C12" }
     fn rule(&self) -> String {
         "the real binary (built from the working tree with the tree's crypto crate) over the wiring matrix {file argument | stdin} x {-o | stdout} x {-k | KESTREL_KEYRING} x {long | short option names} x {command | alias} x {--opt value | --opt=value} \
-         for encrypt, decrypt, password encrypt, password decrypt; inputs: valid files of 0 B, 10 B, 65536 B, 70000 B; invalid: wrong key, corrupted chunk 0 / chunk 1, truncated, trailing byte, missing keyring; keyrings with the sender first / last / absent, with and without a preceding entry whose checksum is wrong; with and without a longer unrelated file already present at the output path. \
+         for encrypt, decrypt, password encrypt, password decrypt; inputs: valid files of 0 B, 10 B, 65536 B, 70000 B; invalid: wrong key, corrupted chunk 0 / chunk 1, truncated, trailing byte, missing keyring; keyrings with the sender first / last / absent, with and without a preceding entry whose checksum is wrong; with and without a longer unrelated file already present at the output path; with -k, KESTREL_KEYRING additionally unset / naming a missing file / another keyring / garbage. \
          compared with the Lean CLI model: exit status, delivered bytes (file or stdout), sender line; oracle: exit 0 iff the delivered bytes are the complete original (decrypt) resp. decrypt back to it under the model (encrypt), 'Error:' line iff exit 1. \
          non-trivial = distinct (operation, input, wiring)".into()
     }
@@ -91,6 +91,12 @@ impl Prop for C12 {
         let mut files = vec![(PLAIN.to_string(), infile.clone())];
         if input != "nokeyring" { files.push((KR.to_string(), kr_text.clone().into_bytes())); } else if keym { expect_ok = false; }
         if !k_opt && keym { env.push(("KESTREL_KEYRING".into(), KR.into())); }
+        // -k given: a KESTREL_KEYRING that is set as well (a default exported in the shell profile) must not matter, whatever it names
+        let decoy = if k_opt && keym { ["none", "missing", "other-keyring", "garbage", "none"][rng.below(5)] } else { "none" };
+        match decoy { "missing" => env.push(("KESTREL_KEYRING".into(), "no-such-keyring.txt".into())),
+            "other-keyring" => { env.push(("KESTREL_KEYRING".into(), "default-kr.txt".into())); files.push(("default-kr.txt".into(), keyring(&[(&fx.carol, true)]).into_bytes())); }
+            "garbage" => { env.push(("KESTREL_KEYRING".into(), "default-kr.txt".into())); files.push(("default-kr.txt".into(), b"not a keyring\n".to_vec())); }
+            _ => {} }
         // half of the runs find a longer, unrelated file already at the output path: it must be replaced, not patched
         let stale: Vec<u8> = vec![0x55u8; 200_000];
         let has_stale = out_opt && (w >> 2) % 2 == 0;
@@ -109,13 +115,15 @@ impl Prop for C12 {
         o.model_obs = format!("exit={} err={} delivered={}B sender={}", mo.exit, mo.err, mdelivered.len(), mo.sender);
         o.tags.push(format!("{} {} -> exit {:?}", op, input, obs.exit));
         o.nontrivial = Some(format!("{}/{}/{}/{}", op, input, get(c, "kr"), w));
-        let label = format!("{} [{}] input={} keyring={}", op, args.join(" "), input, get(c, "kr"));
+        let label = format!("{} [{}] input={} keyring={}{}", op, args.join(" "), input, get(c, "kr"), if decoy == "none" { String::new() } else { format!(" KESTREL_KEYRING={} as well", decoy) });
+        if decoy != "none" { o.tags.push(format!("-k and KESTREL_KEYRING ({})", decoy)); }
         // ---- oracle on the implementation ----
         if obs.signal || obs.timed_out || !matches!(obs.exit, Some(0) | Some(1)) { o.oracle_fail = Some(("exit-0-or-1".into(), format!("{}: exit {:?} signal={} timeout={}", label, obs.exit, obs.signal, obs.timed_out))); return o; }
         let ok = obs.exit == Some(0);
         if ok == obs.error_line() { o.oracle_fail = Some(("error-line-iff-exit-1".into(), format!("{}: exit {:?} but stderr {:?}", label, obs.exit, obs.stderr))); return o; }
         if decrypting {
             if ok && delivered != plain { o.oracle_fail = Some(("exit-0=>full-plaintext-delivered".into(), format!("{}: exit 0 but {} of {} bytes delivered", label, delivered.len(), plain.len()))); return o; }
+            if ok && out_opt && obs.file("out.bin") != Some(&plain) { o.oracle_fail = Some(("exit-0=>output-file-holds-the-plaintext".into(), format!("{}: exit 0, but the output file {} (the plaintext has {} bytes)", label, match obs.file("out.bin") { None => "does not exist".to_string(), Some(b) => format!("holds {} other bytes", b.len()) }, plain.len()))); return o; }
             if !ok && expect_ok { o.oracle_fail = Some(("valid-input-succeeds".into(), format!("{}: exit 1 on a valid file: {}", label, obs.stderr.trim()))); return o; }
             if ok && !expect_ok { o.oracle_fail = Some(("invalid-input-fails".into(), format!("{}: exit 0 on an invalid input", label))); return o; }
             if !plain.starts_with(&delivered) { o.oracle_fail = Some(("delivered-is-prefix".into(), format!("{}: delivered bytes are not a prefix of the plaintext", label))); return o; }
